@@ -4,31 +4,54 @@
    value), and a list of resolver queries with what /repo's resolvers returned.
    Compared: resolver models (Resolvers.v) against the observed path parts /
    strings / error class; `facts` (Model.v) against the stored entries as
-   multisets modulo the numbering of array indices. *)
+   multisets modulo the numbering of array indices; the tree keys (KeyModel.v: parts of
+   the model + the case's hasher, through recorded primitive calls) against the
+   MtEntry() of the schema-side path, the document-side path and the stored entry. *)
 From Coq Require Import ZArith List String Ascii Bool Uint63.
 From GSP Require Import Base.Prelude Base.Decode Value.Time Value.Model Value.Run RDF.Model RDF.Run
-  JsonLD.Model JsonLD.Resolvers.
+  Merklizer.Model JsonLD.Model JsonLD.Resolvers JsonLD.KeyModel.
 Import ListNotations.
 Open Scope list_scope.
 
 Inductive pobs := POk (l : list rpart) | PErr.
 Inductive sobs := SOk (s : string) | SErr.
 
+(* a tree key the implementation reported (Path.MtEntry / RDFEntry.KeyMtEntry) *)
+Inductive kobs := KOk (z : limbs) | KErr | KNone.
+
 Inductive query :=
 | QDoc (pi : list string) (o : pobs)               (* Merklizer.ResolveDocPath / NewPathFromDocument *)
 | QCtx (pi : list string) (o : pobs)               (* NewPathFromContext *)
 | QField (ty field : list string) (o : pobs)       (* NewFieldPathFromContext *)
 | QTypeID (ty : string) (o : sobs)                 (* TypeIDFromContext *)
-| QTypeOf (pi : list string) (o : sobs).           (* TypeFromContext *)
+| QTypeOf (pi : list string) (o : sobs)            (* TypeFromContext *)
+(* tree keys of one field: FieldPathFromContext(ty, field) with the type prefix restored by
+   Prepend(pre), ResolveDocPath(pi), and the entry stored for the field *)
+| QKeys (ty field : list string) (pre : list rpart) (pi : list string) (ks kd ke : kobs).
 
 (* stored entry: key parts, datatype, Some s when the stored value is a Go string of
    a datatype that is kept verbatim *)
 Definition oentry := (list rpart * string * option string)%type.
 Inductive eobs := EEntries (l : list oentry) | EErr | ESkip.
 
-Record ccase := { c_id : int; c_ld : loader; c_doc : json; c_cj : json; c_entries : eobs; c_queries : list query }.
-Definition mkcc (id : int) (ld : loader) (doc cj : json) (e : eobs) (qs : list query) : ccase :=
-  {| c_id := id; c_ld := ld; c_doc := doc; c_cj := cj; c_entries := e; c_queries := qs |}.
+(* c_h: the primitive calls (HashBytes of every part, Hash of every part list) of the hasher the
+   case runs under, recorded by the harness on the real hasher *)
+Record ccase := { c_id : int; c_h : raw_hasher; c_ld : loader; c_doc : json; c_cj : json; c_entries : eobs;
+                  c_queries : list query }.
+Definition mkcc (id : int) (h : raw_hasher) (ld : loader) (doc cj : json) (e : eobs) (qs : list query) : ccase :=
+  {| c_id := id; c_h := h; c_ld := ld; c_doc := doc; c_cj := cj; c_entries := e; c_queries := qs |}.
+Definition mkrh (p : limbs) (hs : list (list limbs * option limbs)) (bs : list (string * option limbs)) : raw_hasher :=
+  {| rh_prime := p; rh_hash := hs; rh_bytes := bs |}.
+
+Definition part_of (r : rpart) : part :=
+  match r with RPS s => PStr s | RPI i => PInt (Uint63.to_Z i) end.
+Definition kagree (r : res Z) (o : kobs) : bool :=
+  match o, r with
+  | KNone, _ => true
+  | KOk l, Ok z => Z.eqb z (z_of_limbs l)
+  | KErr, Err _ => true
+  | _, _ => false          (* includes an oracle miss (Panic) *)
+  end.
 
 (* integers of JSON numbers are written as signed limb numbers *)
 Definition JI (s : snum) : json := JInt (z_of_snum s).
@@ -46,8 +69,13 @@ Definition sagree (r : res string) (o : sobs) : bool :=
   | _, _ => false
   end.
 
-Definition query_ok (ld : loader) (doc cj : json) (q : query) : bool :=
+Definition query_ok (H : hasher) (ld : loader) (doc cj : json) (q : query) : bool :=
   match q with
+  | QKeys ty f pre pi ks kd ke =>
+      kagree (path_key H (p <- field_path_from_context_p H None ld cj ty f ;;
+                          Ok (path_prepend (map part_of pre) p))) ks &&
+      kagree (path_key H (path_from_document_p H None ld doc pi)) kd &&
+      kagree (path_key H (entry_path H ld doc pi)) ke
   | QDoc pi o => pagree (path_from_document ld doc pi) o
   | QCtx pi o => pagree (path_from_context ld cj pi) o
   | QField ty f o => pagree (field_path_from_context ld cj ty f) o
@@ -98,7 +126,7 @@ Definition entries_ok (ld : loader) (doc : json) (o : eobs) : bool :=
 
 Definition case_ok (c : ccase) : bool :=
   entries_ok (c_ld c) (c_doc c) (c_entries c) &&
-  forallb (query_ok (c_ld c) (c_doc c) (c_cj c)) (c_queries c).
+  forallb (query_ok (mk_hasher (c_h c)) (c_ld c) (c_doc c) (c_cj c)) (c_queries c).
 
 Definition cmismatches (cs : list ccase) : list int :=
   fold_right (fun c acc => if case_ok c then acc else c_id c :: acc) [] cs.
@@ -107,4 +135,5 @@ Definition cmismatches (cs : list ccase) : list int :=
 Definition cdetail (c : ccase) : list nat :=
   (if entries_ok (c_ld c) (c_doc c) (c_entries c) then [] else [O]) ++
   map (fun iq => S (fst iq))
-      (filter (fun iq => negb (query_ok (c_ld c) (c_doc c) (c_cj c) (snd iq))) (index_from O (c_queries c))).
+      (filter (fun iq => negb (query_ok (mk_hasher (c_h c)) (c_ld c) (c_doc c) (c_cj c) (snd iq)))
+              (index_from O (c_queries c))).
